@@ -53,11 +53,14 @@ TERM = (6, 5)
 EXCS = ("RenderError", "StopIteration", "AttributeError", "KeyboardInterrupt")
 
 
+EXCS_MORE = EXCS + ("ValueError", "SystemExit")
+
+
 def exc_of(name):
     if name == "RenderError":
         return world.load().renderable.RenderError("injected")
-    return {"StopIteration": StopIteration, "AttributeError": AttributeError,
-            "KeyboardInterrupt": KeyboardInterrupt}[name]("injected")
+    return {"StopIteration": StopIteration, "AttributeError": AttributeError, "ValueError": ValueError,
+            "KeyboardInterrupt": KeyboardInterrupt, "SystemExit": SystemExit}[name]("injected")
 
 
 class Shim:
@@ -72,7 +75,7 @@ class Scn:
         lb = M.lib()
         R = lb["R"]
         self.cfg = cfg
-        self.stdout = world.VStdout(None, True, None, record=False)
+        self.stdout = world.VStdout(None, cfg.get("tty", True), None, record=False)
         self.clock = world.VClock(self.stdout)
         self.tty = world.setup("other", *TERM, stdout=self.stdout, clock=self.clock)
         n = cfg["n"]
@@ -150,6 +153,15 @@ class Scn:
                 r.draw(animate=False)
             elif k == "drawa":
                 r.draw(loops=op[1], cache=op[2])
+            elif k == "drawx":
+                if op[1] == "nocheck":
+                    r.draw(animate=False, check_size=False)
+                elif op[1] == "scroll":
+                    r.draw(animate=False, allow_scroll=True)
+                elif op[1] == "exactpad":
+                    r.draw(None, M.make_pad("E1010"), animate=False)
+                else:
+                    r.draw(animate=False, echo_input=True, hide_cursor=False)
             elif k == "iter":
                 self.drop_iterator()
                 self.it_data = None
@@ -243,7 +255,7 @@ class Scn:
         fe = None if fault is None or len(fault) < 3 else fault[2]
 
         def v(clause, what, **kw):
-            sig = dict(clause=clause, op="draw" if op[0] == "drawa" else op[0], fault=fk, exc=fe)
+            sig = dict(clause=clause, op="draw" if op[0] in ("drawa", "drawx") else op[0], fault=fk, exc=fe)
             sig.update(kw)
             return sig, f"{what} [cfg={self.cfg}, op={op}, fault={fault}]"
 
@@ -293,7 +305,8 @@ class Scn:
         if k == "frd_stale" and out != ("raise", "ValueError"):
             return v("stale-data-accepted", f"_from_render_data_ with finalized data: {out}", got=M.res_sig(out))
         if not self.fired and out[0] == "raise" and not (
-                (k == "seekbad" and out[1] == "ValueError") or state_before == "closed" or k == "frd_stale"):
+                (k == "seekbad" and out[1] == "ValueError") or state_before == "closed" or k == "frd_stale"
+                or (self.cfg["n"] == 1 and k in ("iter", "frd") and out[1] == "ValueError")):   # not animated
             return v("exception", f"{k} raised {out[1]} without any fault", got=M.res_sig(out))
         return None
 
@@ -320,7 +333,8 @@ def ops_of(cfg):
            ("iter", 1, False), ("iter", 2, True), ("frd", 1, 1), ("frd", 0, 2), ("frd_stale",),
            ("next",), ("seek0",), ("seekbad",), ("size",), ("close",), ("drop",), ("cdfin",)]
     if cfg.get("rich"):
-        ops += [("drawa", 2, False), ("iter", -1, True), ("frd", 1, 2), ("frd", 0, 1)]
+        ops += [("drawa", 2, False), ("iter", -1, True), ("iter", 3, 2), ("drawa", 3, 2), ("frd", 1, 2), ("frd", 0, 1),
+                ("drawx", "nocheck"), ("drawx", "scroll"), ("drawx", "exactpad"), ("drawx", "echo")]
     return ops
 
 
@@ -334,7 +348,7 @@ def fault_variants(op, calls, excs):
     for j in range(1, nr + 1):
         for x in excs:
             out.append(("render", j, x))
-    if op[0] in ("draw", "drawa"):
+    if op[0] in ("draw", "drawa") or (op[0] == "drawx" and op[1] != "nocheck"):
         out.append(("validate",))
     return out
 
@@ -420,12 +434,18 @@ def configs(tier):
         out.append(dict(n=2, faults=1, excs=list(EXCS)))
         out.append(dict(n="I2", faults=1, excs=list(EXCS)))
         out.append(dict(n=3, faults=0, excs=[], rich=True))
+        out.append(dict(n=1, faults=1, excs=list(EXCS), rich=True))
+        out.append(dict(n=2, faults=1, excs=["RenderError", "KeyboardInterrupt"], tty=False))
     else:
-        out.append(dict(n=2, faults=2, excs=list(EXCS)))
-        out.append(dict(n=3, faults=1, excs=list(EXCS), rich=True))
-        out.append(dict(n="I2", faults=2, excs=list(EXCS)))
-        out.append(dict(n="I3", faults=1, excs=list(EXCS), rich=True))
-        out.append(dict(n=2, faults=1, excs=list(EXCS), rich=True))
+        for n in (2, 3, "I2", "I3"):
+            out.append(dict(n=n, faults=2, excs=list(EXCS_MORE), rich=True))
+            out.append(dict(n=n, faults=1, excs=list(EXCS_MORE), rich=True, tty=False))
+        out.append(dict(n=2, faults=3, excs=list(EXCS)))
+        out.append(dict(n="I2", faults=3, excs=list(EXCS)))
+        out.append(dict(n=4, faults=1, excs=list(EXCS), rich=True))
+        out.append(dict(n="I4", faults=1, excs=list(EXCS), rich=True))
+        out.append(dict(n=1, faults=2, excs=list(EXCS_MORE), rich=True))
+        out.append(dict(n=1, faults=1, excs=list(EXCS_MORE), rich=True, tty=False))
     return out
 
 
@@ -477,7 +497,7 @@ def run(ctx):
         operations=[list(o) for o in ops_of(dict(rich=True))],
         fault_kinds=["k-th _render_ inside the operation", "k-th _get_render_data_ inside the operation",
                      "size validation of draw (terminal 1x1)"],
-        exceptions=list(EXCS),
+        exceptions=list(EXCS if ctx.tier == "quick" else EXCS_MORE),
         configurations=items,
         terminal=list(TERM),
     )
